@@ -175,7 +175,9 @@ func canBeNumber(q query) bool {
 func (b *builder) processFilter(root *filterNode, flags flag, props *builderProp) (query, error) {
 	first := (flags & flagsEnum.Filter) == 0
 
-	qyInput, err := b.processNode(root.Input, (flags | flagsEnum.Filter), props)
+	// A filtered descendant step must report every match, not only the outermost
+	// ones: the predicate may reject an outer match and keep one nested in it.
+	qyInput, err := b.processNode(root.Input, (flags|flagsEnum.Filter)&^flagsEnum.SmartDesc, props)
 	if err != nil {
 		return nil, err
 	}
